@@ -50,6 +50,8 @@ pub struct Lexer {
     char_index: isize,
     before_from: bool,
     possible_search_root: bool,
+    in_roots: bool,
+    raw_at_part_start: bool,
     after_open: bool,
     after_where: bool,
     after_order: bool,
@@ -64,6 +66,8 @@ impl Lexer {
             char_index: 0,
             before_from: true,
             possible_search_root: false,
+            in_roots: false,
+            raw_at_part_start: false,
             after_open: false,
             after_where: false,
             after_order: false,
@@ -138,8 +142,9 @@ impl Lexer {
                             if maybe_expr {
                                 break;
                             }
-                        } else if (self.input.len() == 1 
-                                || (self.input.len() > 1 && !self.possible_search_root)) 
+                        } else if (self.input.len() == 1
+                                || (self.input.len() > 1
+                                    && !(self.possible_search_root && self.raw_at_part_start)))
                             && (c == ' ' || c == ',' || is_paren_char(c) || self.is_op_char(c)) {
                             break;
                         }
@@ -170,6 +175,8 @@ impl Lexer {
                             } else if self.is_arithmetic_op_char(c) {
                                 LexingMode::ArithmeticOperator
                             } else {
+                                // a search root given as its own shell word may contain spaces
+                                self.raw_at_part_start = self.char_index == 1;
                                 LexingMode::RawString
                             };
                             s.push(c);
@@ -237,8 +244,20 @@ impl Lexer {
             _ => None,
         };
 
+        // the list of search roots ends with the next clause keyword
+        match lexem {
+            Some(Lexem::From) => self.in_roots = true,
+            Some(Lexem::Where) | Some(Lexem::Order) | Some(Lexem::Limit) | Some(Lexem::Into) => {
+                self.in_roots = false
+            }
+            Some(Lexem::RawString(ref s)) if s.eq_ignore_ascii_case("group") => {
+                self.in_roots = false
+            }
+            _ => {}
+        }
+
         self.possible_search_root = matches!(lexem, Some(Lexem::From))
-                || (matches!(lexem, Some(Lexem::Comma)) && !self.before_from && !self.after_where);
+            || (matches!(lexem, Some(Lexem::Comma)) && self.in_roots);
         self.after_operator = matches!(lexem, Some(Lexem::Operator(_)));
 
         lexem
